@@ -16,9 +16,11 @@ Trace == ndJsonDeserialize("trace.ndjson")
 
 \* a clause is reported once per trace (the first event that violates it)
 New(fs)  == fs \ noted
-Note(fs) == IF New(fs) = {} THEN viol ELSE Append(viol, [l |-> l, c |-> New(fs)])
+\* (at most MaxViol violating events are kept: a change that breaks every case must not make validation quadratic)
+MaxViol == 3000
+Note(fs) == IF New(fs) = {} \/ Len(viol) >= MaxViol THEN viol ELSE Append(viol, [l |-> l, c |-> New(fs)])
 Rec(fs)      == viol' = Note(fs) /\ noted' = noted \cup fs
-RecBegin(fs) == viol' = (IF fs = {} THEN viol ELSE Append(viol, [l |-> l, c |-> fs])) /\ noted' = fs
+RecBegin(fs) == viol' = (IF fs = {} \/ Len(viol) >= MaxViol THEN viol ELSE Append(viol, [l |-> l, c |-> fs])) /\ noted' = fs
 
 TInit == l = 1 /\ viol = <<>> /\ noted = {} /\ CInit
 
@@ -30,6 +32,7 @@ TNext ==
        [] e.ev = "Reset" -> Reset(e) /\ UNCHANGED <<viol, noted>>
        [] e.ev \in {"Write", "Flush", "Close"} -> Call(e) /\ Rec(Failed(e))
        [] e.ev = "Soak"  -> Soak(e) /\ Rec(SoakFailed(e))
+       [] e.ev = "Bulk"  -> UNCHANGED cvars /\ Rec(BulkFailed(e))
        [] e.ev = "Cmp"   -> UNCHANGED cvars /\ Rec(CmpFailed(e))
        [] e.ev = "Ctor"  -> UNCHANGED cvars /\ Rec(CtorFailed(e))
        \* mechanism events of the compressor (hooks): judged by DynMechTrace, not by the contract
